@@ -16,6 +16,8 @@ import EPV.Lemmas.CompareFindings
 import EPV.Lemmas.CompareOrder
 import EPV.Lemmas.CompareGeneral
 import EPV.Lemmas.CompareCompat
+import EPV.Lemmas.CompareContext
+import EPV.Lemmas.CompareCompat2
 namespace EPV.C07
 open EPV.Cmp EPV.CmpSpec EPV.CmpFind
 
@@ -97,26 +99,16 @@ example : generalCmp .v2 .eq [.atom (.int 1), .atom (.str [97])] [.atom (.int 1)
     generalCmp .v2 .eq [.atom (.str [97]), .atom (.int 1)] [.atom (.int 1)] = .error .XPTY0004 := by
   decide +kernel
 
-/-- all pair-level finding triggers of a general comparison are off for the pair, and the pair lies
-in the lexical fragment on which model and specification are defined -/
-def PairClean (m : Mode) (op : Op) (a b : Atom) : Prop :=
-  CmpFind.trigTol false op a b = false ∧ CmpFind.trigPromotion false a b = false ∧
-  CmpFind.trigLenient m op a b = false ∧
-  (CmpFind.trigUntyped op a b = false ∧ CmpFind.trigUntypedQN m a b = false) ∧
-  pairSpec m op a b ≠ .error .unsupported ∧ pairGeneral m op a b ≠ .error .unsupported ∧
-  CmpFind.atomTzOK a = true ∧ CmpFind.atomTzOK b = true
-
-/-- PARTIAL (findings F07, F07-promotion, F07-lenient, F07-untyped).  One pair of a general
-comparison, any two atoms of the 17 types (untypedAtomic included), any operator: outside the four
-trigger predicates the code — isinstance dispatch of iter_comparison_data, then the Python rich
+/-- PARTIAL (findings F07, F07-promotion, F07-untyped).  One pair of a general comparison, any two
+atoms of the 17 types (untypedAtomic included), any operator: if the pair is `PairClean` (EPV/Lemmas/
+CompareGeneral.lean: the three trigger predicates off, lexical fragment, timezones within ±14:00) the code — isinstance dispatch of iter_comparison_data, then the Python rich
 comparison of the datatype classes, then the exception mapping — yields exactly the outcome of
 XPath 3.1 §3.7.2 (a)-(c) (cast of the untypedAtomic operand as dictated by the other operand) followed
 by the value comparison of §3.7.1: the same boolean, FORG0001 for a failed cast, XPTY0004 for
 incomparable types.  The full statement is false: see the `*_witness` theorems below. -/
 theorem general_pair_conforms_partial (m : Mode) (op : Op) (a b : Atom) (h : PairClean m op a b) :
     pairGeneral m op a b = pairSpec m op a b :=
-  pairGeneral_conforms m op a b h.1 h.2.1 h.2.2.1 h.2.2.2.1.1 h.2.2.2.2.1 h.2.2.2.2.2.1
-    (dtConsistent_of_tzOK a b h.2.2.2.2.2.2.1 h.2.2.2.2.2.2.2) h.2.2.2.1.2
+  pairGeneral_conforms_clean m op a b h
 
 /-- the hypothesis is satisfiable on non-trivial pairs: untyped "10" < 9 (cast to double), untyped
 " true " = true() (cast to boolean), "abc" < anyURI "abd", hexBinary in 3.1, untyped "a" = QName a (3.1) -/
@@ -154,7 +146,7 @@ theorem general_cmp_conforms_partial (m : Mode) (op : Op) (L Rr : List Item) (hm
       allowedOfPairs ((product (L.map (atomize m)) (Rr.map (atomize m))).map (fun p => pairSpec m op p.1 p.2)) := by
     rcases hm with rfl | rfl <;> simp [generalAllowed, hat, hprod]
   rw [hga, hmap, general_is_any m op L Rr hcompat]
-  exact anyPairs_in_allowed (pairGeneral m op) _ (fun p hp => (hps p hp).2.2.2.2.2.1)
+  exact anyPairs_in_allowed (pairGeneral m op) _ (fun p hp => (hps p hp).2.2.2.2.1)
 
 /-! ## the implicit timezone of the dynamic context; purity -/
 
@@ -237,6 +229,25 @@ example :
     generalAllowed .v1 .lt [.node [49], .node [51], .node [50]] [.atom (.dbl (.fin (5/2)))] = some [.t] ∧
     CmpFind.trigCompat .v1 .eq ([.node [97], .node [98]].map (atomize .v1)) ([.node [98]].map (atomize .v1)) true true = false ∧
     CmpFind.trigCompat .v1 .eq [.bool true] [.str [120]] false false = false := by decide +kernel
+
+/-- PARTIAL (finding F07-compat).  XPath2Parser(compatibility_mode=True) against XPath 2.0 §3.5.2
+rules 1-4 (single-boolean rule; fn:number under ordering operators; number / string conversions of
+rule 4, then the ordinary rules), for any two operand sequences (atoms of the 17 types, nodes) and any
+operator: outside the F07-compat trigger, and with every pair of the cartesian product `PairClean`, the
+code's result is one of the outcomes the specification permits. -/
+theorem compat_v2c_conforms_partial (op : Op) (L Rr : List Item)
+    (ht : CmpFind.trigCompat .v2c op (L.map (atomize .v2c)) (Rr.map (atomize .v2c))
+      (L.any CmpFind.isNode) (Rr.any CmpFind.isNode) = false)
+    (hclean : ∀ a ∈ L.map (atomize .v2c), ∀ b ∈ Rr.map (atomize .v2c), PairClean .v2c op a b) :
+    ∃ allowed, generalAllowed .v2c op L Rr = some allowed ∧ outOfR (generalCmp .v2c op L Rr) ∈ allowed :=
+  compat_v2c_conforms op L Rr ht hclean
+
+/-- the hypotheses are satisfiable: a node-set `< 2` (all items numeric strings), `true() >= $x` -/
+example :
+    CmpFind.trigCompat .v2c .lt ([.node [49], .node [51]].map (atomize .v2c)) ([.atom (.int 2)].map (atomize .v2c)) true false = false ∧
+    generalCmp .v2c .lt [.node [49], .node [51]] [.atom (.int 2)] = .ok true ∧
+    generalAllowed .v2c .lt [.node [49], .node [51]] [.atom (.int 2)] = some [.t] ∧
+    CmpFind.trigCompat .v2c .ge [.bool true] [.str [120]] false false = false := by decide +kernel
 
 /-! ## effective boolean value -/
 
@@ -383,10 +394,9 @@ four `months2days` calendar offsets, included: `durCmp4_ymd`).  The full stateme
 theorem value_cmp_conforms_partial (m : Mode) (op : Op) (a b : Atom)
     (hua : isUA a = false) (hub : isUA b = false)
     (hTol : trigTol true op a b = false) (hProm : trigPromotion true a b = false)
-    (hOva : ∀ e, getDouble a ≠ .error e) (hOvb : ∀ e, getDouble b ≠ .error e)
     (hTa : atomTzOK a = true) (hTb : atomTzOK b = true) :
     valuePair m op a b = valueOp (binOrdered m) op a b :=
-  valuePair_conforms m op a b hua hub hTol hProm hOva hOvb (dtConsistent_of_tzOK a b hTa hTb)
+  valuePair_conforms m op a b hua hub hTol hProm (dtConsistent_of_tzOK a b hTa hTb)
 
 /-- the hypotheses are satisfiable on non-trivial pairs: 2^53+1 against a double, a decimal against a
 float, two different close-but-not-too-close doubles -/
@@ -399,10 +409,9 @@ example : trigTol true .lt (.dbl (.fin 1)) (.dbl (.fin (1 + 1 / 8388608))) = fal
 theorem incomparable_XPTY0004 (m : Mode) (op : Op) (a b : Atom)
     (hua : isUA a = false) (hub : isUA b = false)
     (hTol : trigTol true op a b = false) (hProm : trigPromotion true a b = false)
-    (hOva : ∀ e, getDouble a ≠ .error e) (hOvb : ∀ e, getDouble b ≠ .error e)
     (hTa : atomTzOK a = true) (hTb : atomTzOK b = true) :
     valuePair m op a b = .error .XPTY0004 ↔ valueOp (binOrdered m) op a b = .error .XPTY0004 := by
-  rw [valuePair_conforms m op a b hua hub hTol hProm hOva hOvb (dtConsistent_of_tzOK a b hTa hTb)]
+  rw [valuePair_conforms m op a b hua hub hTol hProm (dtConsistent_of_tzOK a b hTa hTb)]
 
 /-- one representative atom per type -/
 def reps : List Atom :=
@@ -434,7 +443,6 @@ theorem value_seq_conforms_partial (m : Mode) (op : Op) (L Rr : List Item) (hm :
     (hpair : ∀ x y, L = [x] → Rr = [y] →
       let a := castUAStr (atomize m x); let b := castUAStr (atomize m y)
       trigTol true op a b = false ∧ trigPromotion true a b = false ∧
-      (∀ e, getDouble a ≠ .error e) ∧ (∀ e, getDouble b ≠ .error e) ∧
       atomTzOK a = true ∧ atomTzOK b = true ∧ valueOp (binOrdered m) op a b ≠ .error .unsupported) :
     ∃ allowed, valueAllowed m op L Rr = some allowed ∧ outOfOR (valueCmp m op L Rr) ∈ allowed := by
   have hat : ∀ x, atomizeS m x = atomize m x := by intro x; cases x <;> rfl
@@ -455,8 +463,8 @@ theorem value_seq_conforms_partial (m : Mode) (op : Op) (L Rr : List Item) (hm :
   | _ :: _ :: _, [y] => simp [valueAllowed, hm, valueCmp, valueCmpWith, atomizedOperand, outOfOR]
   | _ :: _ :: _, _ :: _ :: _ => simp [valueAllowed, hm, valueCmp, valueCmpWith, atomizedOperand, outOfOR]
   | [x], [y] =>
-    obtain ⟨h1, h2, h4, h5, h8, h9, h7⟩ := hpair x y rfl rfl
-    have hc := valuePair_conforms m op _ _ (hcast (atomize m x)) (hcast (atomize m y)) h1 h2 h4 h5
+    obtain ⟨h1, h2, h8, h9, h7⟩ := hpair x y rfl rfl
+    have hc := valuePair_conforms m op _ _ (hcast (atomize m x)) (hcast (atomize m y)) h1 h2
       (dtConsistent_of_tzOK _ _ h8 h9)
     simp only [valueAllowed, hm, valueCmp, valueCmpWith, hop, hat, hcs, hc, List.isEmpty_cons, List.length_cons,
       List.length_nil, Bool.or_self, Bool.false_eq_true]
@@ -492,7 +500,7 @@ theorem value_cmp_order_partial :
   intro m op x y h
   have := valuePair_conforms m op (.dbl x) (.dbl y) rfl rfl (by simp [trigTol, h])
     (by simp [trigPromotion, numRank])
-    (by simp [getDouble]) (by simp [getDouble]) rfl
+    rfl
   simpa [valueOp, numRank, castNum] using this
 
 /-- the hypothesis is satisfiable with different values: 1 and 1 + 2^-23 are not close -/
@@ -505,13 +513,12 @@ theorem value_cmp_order_float_partial (m : Mode) (op : Op) (x y : D)
     valuePair m op (.flt x) (.flt y) = .ok (six numLt numEq op x y) := by
   have := valuePair_conforms m op (.flt x) (.flt y) rfl rfl (by simpa [trigTol] using h)
     (by simp [trigPromotion, numRank])
-    (by simp [getDouble]) (by simp [getDouble]) rfl
+    rfl
   simpa [valueOp, numRank, castNum] using this
 
 /-- NaN is unequal to, and unordered with, every numeric value — also across types (the tolerance
 never applies to NaN) -/
-theorem nan_unequal_to_everything (m : Mode) (op : Op) (b : Atom) (hb : isNumCls b = true)
-    (hov : ∀ e, getDouble b ≠ .error e) :
+theorem nan_unequal_to_everything (m : Mode) (op : Op) (b : Atom) (hb : isNumCls b = true) :
     valuePair m op (.dbl .nan) b = .ok (op == .ne) ∧ valuePair m op b (.dbl .nan) = .ok (op == .ne) := by
   have hc : ∀ y, isclose .nan y = false ∧ isclose y .nan = false := by
     intro y; cases y <;> simp [isclose, D.eq, D.isNaN, D.isInf]
@@ -519,14 +526,12 @@ theorem nan_unequal_to_everything (m : Mode) (op : Op) (b : Atom) (hb : isNumCls
   · have := valuePair_conforms m op (.dbl .nan) b rfl (by cases b <;> simp_all [isNumCls, isUA])
       (by cases b <;> simp [trigTol, tolClose, (hc _).1])
       (by cases b <;> simp [trigPromotion, numRank, exactVal, castNum])
-      (by simp [getDouble]) hov
       (by cases b <;> rfl)
     rw [this]
     cases b <;> simp [isNumCls] at hb <;> simp [valueOp, numRank, castNum, (nan_six op _).1]
   · have := valuePair_conforms m op b (.dbl .nan) (by cases b <;> simp_all [isNumCls, isUA]) rfl
       (by cases b <;> simp [trigTol, tolClose, (hc _).2])
       (by cases b <;> simp [trigPromotion, numRank, exactVal, castNum])
-      hov (by simp [getDouble])
       (by cases b <;> rfl)
     rw [this]
     cases b <;> simp [isNumCls] at hb <;> simp [valueOp, numRank, castNum, (nan_six op _).2]
@@ -543,7 +548,7 @@ theorem value_cmp_order_string :
   intro m op s t
   refine ⟨?_, ?_, ?_, ?_⟩ <;>
   · rw [valuePair_conforms m op _ _ rfl rfl rfl (by simp [trigPromotion, numRank])
-      (by simp [getDouble]) (by simp [getDouble]) rfl]
+      rfl]
     simp [valueOp, numRank]
 
 /-- booleans: false < true -/
@@ -554,7 +559,7 @@ theorem value_cmp_order_boolean :
   refine ⟨?_, boolLaws⟩
   intro m op x y
   rw [valuePair_conforms m op _ _ rfl rfl rfl (by simp [trigPromotion, numRank])
-    (by simp [getDouble]) (by simp [getDouble]) rfl]
+    rfl]
   simp [valueOp, numRank]
 
 /-- dates, dateTimes, times (same kind; each value carries its local clock reading and an optional
@@ -580,11 +585,11 @@ theorem value_cmp_order_temporal :
     have h := dtFarOK_of_tzOK x y hx hy
     refine ⟨?_, ?_, ?_⟩ <;>
     · rw [valuePair_conforms m op _ _ rfl rfl rfl (by simp [trigPromotion, numRank])
-        (by simp [getDouble]) (by simp [getDouble]) (by simpa [dtConsistent, Atom.isDT, Atom.dt] using h)]
+        (by simpa [dtConsistent, Atom.isDT, Atom.dt] using h)]
       simp [valueOp, numRank]
   · intro m op s t
     rw [valuePair_conforms m op _ _ rfl rfl rfl (by simp [trigPromotion, numRank])
-      (by simp [getDouble]) (by simp [getDouble]) rfl]
+      rfl]
     simp [valueOp, numRank]
 
 /-- the year-boundary case that a "compare the year numbers first" implementation gets wrong:
@@ -617,7 +622,6 @@ theorem value_cmp_order_duration (m : Mode) (op : Op) :
       (by cases b <;> simp_all [Atom.isDur, isUA])
       (by cases a <;> cases b <;> simp_all [Atom.isDur, trigTol])
       (by cases a <;> cases b <;> simp_all [Atom.isDur, trigPromotion, numRank])
-      (by cases a <;> simp_all [Atom.isDur, getDouble]) (by cases b <;> simp_all [Atom.isDur, getDouble])
       (by cases a <;> cases b <;> simp_all [Atom.isDur, dtConsistent, Atom.isDT])
   refine ⟨?_, ?_, ?_⟩
   · intro a b
@@ -641,7 +645,7 @@ theorem value_cmp_order_binary :
   intro m op x y h
   constructor <;>
   · rw [valuePair_conforms m op _ _ rfl rfl rfl (by simp [trigPromotion, numRank])
-      (by simp [getDouble]) (by simp [getDouble]) rfl]
+      rfl]
     rcases h with h | h
     · cases op <;> simp_all [valueOp, numRank, Op.isEqNe, isEqNe]
     · subst h; simp [valueOp, numRank, binOrdered]
@@ -680,27 +684,30 @@ theorem string_qname_fixed :
     valuePair .v2 .eq (.str [97]) (.qn [] [] [97]) = .error .XPTY0004 ∧
     valueOp false .eq (.str [97]) (.qn [] [] [97]) = .error .XPTY0004 := by decide +kernel
 
-/-- F07-promotion: `16777217 eq xs:float(16777216)` is false (binary64), true after promotion to
-binary32; `9007199254740993 = 9007199254740992e0` is false (exact), true after promotion to double -/
+/-- F07-promotion: `16777217 eq xs:float(16777216)` is false (the integer is converted to binary64), true
+after promotion to xs:float (binary32); `xs:untypedAtomic('9007199254740992') = 9007199254740993` is false
+(the double is compared exactly with the integer), true after promotion of the integer to xs:double.
+(fixed) `9007199254740993 = 9007199254740992e0` is true, like `eq`. -/
 theorem float_promotion_witness :
     valuePair .v2 .eq (.int 16777217) (.flt (.fin 16777216)) = .ok false ∧
     valueOp false .eq (.int 16777217) (.flt (.fin 16777216)) = .ok true ∧
     trigPromotion true (.int 16777217) (.flt (.fin 16777216)) = true ∧
-    pairGeneral .v2 .eq (.int 9007199254740993) (.dbl (.fin 9007199254740992)) = .ok false ∧
-    pairSpec .v2 .eq (.int 9007199254740993) (.dbl (.fin 9007199254740992)) = .ok true ∧
-    trigPromotion false (.int 9007199254740993) (.dbl (.fin 9007199254740992)) = true := by
+    pairGeneral .v2 .eq (.ua [57,48,48,55,49,57,57,50,53,52,55,52,48,57,57,50]) (.int 9007199254740993) = .ok false ∧
+    pairSpec .v2 .eq (.ua [57,48,48,55,49,57,57,50,53,52,55,52,48,57,57,50]) (.int 9007199254740993) = .ok true ∧
+    trigPromotion false (.ua [57,48,48,55,49,57,57,50,53,52,55,52,48,57,57,50]) (.int 9007199254740993) = true ∧
+    pairGeneral .v2 .eq (.int 9007199254740993) (.dbl (.fin 9007199254740992)) = .ok true ∧
+    pairSpec .v2 .eq (.int 9007199254740993) (.dbl (.fin 9007199254740992)) = .ok true := by
   decide +kernel
 
-/-- (fixed, F07-lenient) `xs:date(..) = 1` and `true() = 1.0e0` raise XPTY0004 as the specification says;
-what remains of F07-lenient: `xs:duration('P1Y') < xs:duration('P13M')` answers (true) where the
-specification says XPTY0004 (xs:duration is not ordered) -/
-theorem lenient_witness :
+/-- (fixed, F07-lenient) incomparable types raise XPTY0004 in general comparisons as the specification
+says: a date against a number, a boolean against a double, and the ordering of two xs:duration values -/
+theorem lenient_fixed :
     pairGeneral .v2 .eq (.date ⟨5, none⟩) (.int 1) = .error .XPTY0004 ∧
     pairSpec .v2 .eq (.date ⟨5, none⟩) (.int 1) = .error .XPTY0004 ∧
     pairGeneral .v2 .eq (.bool true) (.dbl (.fin 1)) = .error .XPTY0004 ∧
-    pairGeneral .v2 .lt (.dur 12 0) (.dur 13 0) = .ok true ∧
+    pairGeneral .v2 .lt (.dur 12 0) (.dur 13 0) = .error .XPTY0004 ∧
     pairSpec .v2 .lt (.dur 12 0) (.dur 13 0) = .error .XPTY0004 ∧
-    trigLenient .v2 .lt (.dur 12 0) (.dur 13 0) = true := by decide +kernel
+    pairGeneral .v2 .le (.dur 12 0) (.ymd 12) = .error .XPTY0004 := by decide +kernel
 
 /-- (fixed) `xs:untypedAtomic('10') < xs:untypedAtomic('9')` is true: both are compared as strings -/
 theorem untyped_order_fixed :
